@@ -139,6 +139,9 @@ func (c *Ctx) EvU(xs ...uint64) {
 // Eval counts one execution of the system under test.
 func (c *Ctx) Eval() { c.Evals++ }
 
+// EvalN counts n executions.
+func (c *Ctx) EvalN(n int64) { c.Evals += n }
+
 // Seen records a distinct non-trivial case by hash.
 func (c *Ctx) Seen(h uint64) { c.Distinct[h] = struct{}{} }
 
